@@ -63,3 +63,55 @@ pub fn dump_cases(path: &str) -> i32 {
     println!("{} cases written to {}", cases.len(), path);
     0
 }
+
+/// python-lark text of a generated grammar (`~m..n` repetition, an explicit empty rule)
+fn pylark(e: &crate::gen::G) -> String {
+    use crate::gen::G;
+    match e {
+        G::Lit(b) => format!("\"{}\"", String::from_utf8_lossy(b)),
+        G::Class(bs) => format!("/[{}]/", String::from_utf8_lossy(bs)),
+        G::Ref(i) => crate::gen::rule_name(*i),
+        G::Empty => "empty_".to_string(),
+        G::Seq(a, b) => format!("({} {})", pylark(a), pylark(b)),
+        G::Alt(a, b) => format!("({} | {})", pylark(a), pylark(b)),
+        G::Opt(a) => format!("({})?", pylark(a)),
+        G::Star(a) => format!("({})*", pylark(a)),
+        G::Plus(a) => format!("({})+", pylark(a)),
+        G::Rep(a, m, n) => format!("({})~{}..{}", pylark(a), m, n),
+    }
+}
+
+/// (grammar, strings, verdicts of the harness's reference Earley recogniser) for
+/// tools/earley_selftest.py, which compares them with Python lark's Earley parser.
+pub fn dump_earley_cases(path: &str) -> i32 {
+    use crate::refs::cfg_earley::{Bnf, Earley};
+    let grams: Vec<crate::gen::Gram> = crate::gen::grams(4).into_iter().filter(|g| g.fully_productive()).collect();
+    let mut strings: Vec<Vec<u8>> = vec![vec![]];
+    let mut layer: Vec<Vec<u8>> = vec![vec![]];
+    for _ in 0..5 {
+        let mut next = vec![];
+        for s in layer.iter() {
+            for c in b"abcd" {
+                let mut t = s.clone();
+                t.push(*c);
+                next.push(t);
+            }
+        }
+        strings.extend(next.iter().cloned());
+        layer = next;
+    }
+    let mut cases = vec![];
+    for g in grams.iter() {
+        let bnf = Bnf::from_gram(g);
+        let e = Earley::new(&bnf);
+        let start = e.start();
+        let verdicts: Vec<bool> = strings.iter().map(|s| e.run(&start, s).map_or(false, |c| e.accepting(&c))).collect();
+        let mut text: Vec<String> = g.rules.iter().enumerate().map(|(i, r)| format!("{}: {}", crate::gen::rule_name(i), pylark(r))).collect();
+        text.push("empty_: ".to_string());
+        cases.push(json!({"grammar": text.join("\n"), "llg_lark": g.lark(), "accepted": strings.iter().zip(verdicts.iter()).filter(|(_, v)| **v).map(|(s, _)| String::from_utf8_lossy(s).to_string()).collect::<Vec<_>>()}));
+    }
+    let all: Vec<String> = strings.iter().map(|s| String::from_utf8_lossy(s).to_string()).collect();
+    std::fs::write(path, serde_json::to_string(&json!({"strings": all, "cases": cases})).unwrap()).unwrap();
+    println!("{} grammars x {} strings written to {}", cases.len(), strings.len(), path);
+    0
+}
